@@ -92,7 +92,7 @@ SimpleContentModel::validateContent(QName** const       children
             //  bad. Otherwise, if its one, then the one child must be
             //  of the type we stored.
             //
-            if (childCount == 1) {
+            if (childCount >= 1) {
                 if (fDTD) {
                     if (!XMLString::equals(children[0]->getRawName(), fFirstChild->getRawName())) {
                         *indexFailingChild=0;
@@ -325,7 +325,7 @@ bool SimpleContentModel::validateContentSpecial(QName** const         children
             //  bad. Otherwise, if its one, then the one child must be
             //  of the type we stored.
             //
-            if ((childCount == 1) &&
+            if ((childCount >= 1) &&
                ((children[0]->getURI() != fFirstChild->getURI()) ||
                 !XMLString::equals(children[0]->getLocalPart(), fFirstChild->getLocalPart())))
             {
